@@ -21,7 +21,8 @@
    pinned known defects):
      CopyOpts    css/svg Minify work on a private copy of the option struct        (code: TRUE)
      TightCap    package-level slices have cap = len, so append never writes them  (code: TRUE)
-     CopyArgs    cmdMinifier copies cmd.Args before substituting $in/$out          (code: FALSE = known defect)
+     CopyArgs    cmdMinifier copies cmd.Args before substituting $in/$out          (code: TRUE since fix fd040d4;
+                 FALSE = the defect fixed there: 2nd call ran on the 1st call's temp file, user's Args overwritten)
      HtmlDep     html option struct has the deprecated KeepConditionalComments set (writes the struct = known defect)
      AllowReg    Add* concurrent with use: documented as unsupported, OUTSIDE the property            *)
 EXTENDS Integers, Sequences, FiniteSets, TLC, Json, SequencesExt
@@ -33,9 +34,17 @@ Iota(n) == [i \in 1 .. n |-> i]      \* <<1, ..., n>> for the eager folds
 
 (* ----------------------------- call shapes ------------------------------ *)
 (* A call is a tree: media type, whether the caller passes inline=1, the nested calls the
-   minifier makes for embedded content.  e = "minify" | "match" | "add". *)
-Leaf(mt, inl) == [e |-> "minify", mt |-> mt, inl |-> inl, kids |-> <<>>]
-Node(mt, inl, kids) == [e |-> "minify", mt |-> mt, inl |-> inl, kids |-> kids]
+   minifier makes for embedded content.  e = "minify" | "match" | "add".
+   hold: the call goes through m.Writer / m.Reader and the USER stalls the pipe: the worker goroutine of
+   the wrapper sits inside the real minifier (waiting for input / for its output to be read) holding the
+   registry's read lock until the user goes on - a gate made of the stream wrapper itself.
+   e = "match": m.Match looks up under the read lock, RETURNS (lock released), and the caller then runs the
+   returned MinifierFunc: the minifier body executes without an outer read hold, its embedded resources
+   re-enter the registry. *)
+Leaf(mt, inl) == [e |-> "minify", mt |-> mt, inl |-> inl, hold |-> FALSE, kids |-> <<>>]
+Node(mt, inl, kids) == [e |-> "minify", mt |-> mt, inl |-> inl, hold |-> FALSE, kids |-> kids]
+Hold(n) == [n EXCEPT !.hold = TRUE]
+Match(n) == [n EXCEPT !.e = "match"]
 
 Cat == [
   css     |-> Leaf("css", FALSE),
@@ -67,10 +76,30 @@ Cat == [
   cmd     |-> Leaf("cmd", FALSE),                                    \* AddCmd / AddCmdRegexp, stdin/stdout
   cmdin   |-> Leaf("cmdin", FALSE),                                  \* AddCmd with $in placeholder
   none    |-> Leaf("none", FALSE),                                   \* no minifier registered
-  \* Match only looks up (the driver then runs the returned function, which is a call without the outer read hold)
-  matchL  |-> [e |-> "match", mt |-> "html", inl |-> FALSE, kids |-> <<>>],
-  matchP  |-> [e |-> "match", mt |-> "xml", inl |-> FALSE, kids |-> <<>>],
-  add     |-> [e |-> "add", mt |-> "css", inl |-> FALSE, kids |-> <<>>]
+  \* stream wrappers stalled by the user: the worker is parked inside the REAL minifier
+  cssH    |-> Hold(Leaf("css", FALSE)),
+  cssDH   |-> Hold(Node("css", FALSE, << Leaf("svg", FALSE) >>)),
+  jsH     |-> Hold(Leaf("js", FALSE)),
+  jsonH   |-> Hold(Leaf("json", FALSE)),
+  xmlH    |-> Hold(Leaf("xml", FALSE)),
+  svg1H   |-> Hold(Node("svg", FALSE, << Leaf("css", FALSE) >>)),
+  html0H  |-> Hold(Leaf("html", FALSE)),
+  htmlCH  |-> Hold(Node("html", FALSE, << Leaf("css", FALSE), Leaf("css", TRUE), Leaf("js", FALSE), Leaf("js", TRUE) >>)),
+  htmlSH  |-> Hold(Node("html", FALSE, << Node("svg", TRUE, << Leaf("css", FALSE) >>) >>)),
+  \* Match, then the returned function is invoked by the caller
+  matchL  |-> Match(Leaf("html", FALSE)),
+  matchC  |-> Match(Leaf("css", TRUE)),
+  matchS  |-> Match(Node("svg", FALSE, << Leaf("css", FALSE), Leaf("css", TRUE) >>)),
+  matchP  |-> Match(Leaf("xml", FALSE)),
+  matchJ  |-> Match(Leaf("json", FALSE)),
+  matchJi |-> Match(Leaf("json", TRUE)),
+  matchJs |-> Match(Leaf("js", FALSE)),
+  matchU  |-> Match(Leaf("upper", FALSE)),
+  matchCmd |-> Match(Leaf("cmd", FALSE)),
+  matchN  |-> Match(Leaf("none", FALSE)),                            \* nil function
+  matchG  |-> Match(Leaf("gate", FALSE)),                            \* parks holding NO read lock
+  matchGre |-> Match(Leaf("gatere", FALSE)),
+  add     |-> [e |-> "add", mt |-> "css", inl |-> FALSE, hold |-> FALSE, kids |-> <<>>]
 ]
 AllShapes == DOMAIN Cat
 
@@ -81,11 +110,12 @@ IsGate(mt) == mt \in {"gate", "gatere"}
 HasInline(mt) == mt \in {"css", "svg"}                               \* option struct with an Inline field
 AppendsPkg(mt) == mt \in {"css", "html"}                             \* append(urlBytes/dataBytes, ...)
 
-DomainShapes == AllShapes \ {"add", "cmdin"}                         \* the property's domain on the unchanged tree
-CoreShapes == DomainShapes \ {"cssD", "jsi", "upper", "svg2", "htmlD", "htmlM", "htmlS3", "svgG", "htmlCG"}
-SmallShapes == {"cssi", "htmlS", "cssG", "gatere", "matchP"}
+DomainShapes == AllShapes \ {"add"}                                  \* the property's domain (no registration during use)
+CoreShapes == {"css", "cssi", "js", "json", "xml", "svg0", "svg1", "html0", "htmlC", "htmlS", "htmlG", "htmlGre", "cssG",
+               "gate", "gatere", "cmd", "cmdin", "none", "cssH", "htmlSH", "matchL", "matchS", "matchG"}
+SmallShapes == {"cssH", "htmlS", "cssG", "gatere", "matchS"}
 PairShapes == {"cssi", "svg0", "htmlS", "gate"}
-QuickShapes == {"css", "cssi", "svg0", "svg1", "htmlS", "htmlG", "svgG", "gatere", "matchP", "cmd", "none"}
+QuickShapes == {"css", "cssi", "svg0", "svg1", "htmlS", "htmlG", "svgG", "gatere", "matchS", "matchG", "cmdin", "none", "htmlCH"}
 
 Tmpl == << 0, 0 >>                  \* cmd.Args still holds the registered template / slice base untouched
 Res(mt, v, inl, pk, ar, kids) == [mt |-> mt, v |-> v, inl |-> inl, pk |-> pk, ar |-> ar, kids |-> kids]
@@ -96,7 +126,8 @@ VARIABLES s, hist
 vars == << s, hist >>
 
 Frame(node, sh) == [node |-> node, sh |-> sh, pc |-> IF node.e = "add" THEN "wlock" ELSE "rlock",
-                    i |-> 1, inl |-> FALSE, pk |-> "own", ar |-> Tmpl, found |-> FALSE, kres |-> <<>>]
+                    i |-> 1, inl |-> FALSE, pk |-> "own", ar |-> Tmpl, found |-> FALSE, kres |-> <<>>,
+                    lk |-> FALSE]                  \* this frame holds one read hold of the registry lock
 
 InitS == [ st   |-> [g \in G |-> <<>>],          \* call stack of goroutine g (top = last)
            k    |-> [g \in G |-> 0],             \* calls completed by g
@@ -118,10 +149,10 @@ Wr(t, loc, g) == [t EXCEPT !.acc = @ \cup {<< loc, "w" >>}, !.wr = @ \cup {<< lo
 \* what a sequential call on a fresh registry returns: a function of (input, options) only
 RECURSIVE Expected(_)
 Expected(node) ==
-  IF node.e = "match" THEN Res(node.mt, "match", FALSE, "own", Tmpl, <<>>)
-  ELSE IF node.e = "add" THEN Res(node.mt, "added", FALSE, "own", Tmpl, <<>>)
-  ELSE IF ~Registered(node.mt) THEN Res(node.mt, "notexist", FALSE, "own", Tmpl, <<>>)
-  ELSE Res(node.mt, "ok", node.inl, "own", Tmpl, [i \in 1 .. Len(node.kids) |-> Expected(node.kids[i])])
+  IF node.e = "add" THEN Res(node.mt, "added", FALSE, "own", Tmpl, <<>>)
+  ELSE IF ~Registered(node.mt) THEN Res(node.mt, IF node.e = "match" THEN "matchnil" ELSE "notexist", FALSE, "own", Tmpl, <<>>)
+  ELSE Res(node.mt, IF node.e = "match" THEN "match" ELSE "ok", node.inl, "own", Tmpl,
+           [i \in 1 .. Len(node.kids) |-> Expected(node.kids[i])])
 \* for cmdin the expected result names the call's own temporary file
 ExpectedAt(node, me) == IF node.mt = "cmdin" THEN [Expected(node) EXCEPT !.ar = me] ELSE Expected(node)
 
@@ -142,9 +173,8 @@ Enabled(t, g) ==
          [] OTHER -> TRUE
 
 ResultOf(f) ==
-  IF f.node.e = "match" THEN Res(f.node.mt, "match", FALSE, "own", Tmpl, <<>>)
-  ELSE IF ~f.found THEN Res(f.node.mt, "notexist", FALSE, "own", Tmpl, <<>>)
-  ELSE Res(f.node.mt, "ok", f.inl, f.pk, f.ar, f.kres)
+  IF ~f.found THEN Res(f.node.mt, IF f.node.e = "match" THEN "matchnil" ELSE "notexist", FALSE, "own", Tmpl, <<>>)
+  ELSE Res(f.node.mt, IF f.node.e = "match" THEN "match" ELSE "ok", f.inl, f.pk, f.ar, f.kres)
 
 \* the minifier body continues (private): next embedded resource, else the append, else the gate, else return
 Continue(t, g, f) ==
@@ -153,48 +183,54 @@ Continue(t, g, f) ==
   ELSE SetTop(t, g, [f EXCEPT !.pc = IF AppendsPkg(f.node.mt) THEN "body"
                                      ELSE IF IsGate(f.node.mt) THEN "park" ELSE "runlock"])
 
+\* the minifier has looked at its options; a stalled stream wrapper parks it here (input not yet complete /
+\* first output not yet read), everything else goes on
+AfterEnter(t, g, f) == IF f.node.hold THEN SetTop(t, g, [f EXCEPT !.pc = "park"]) ELSE Continue(t, g, f)
+
 Do(t, g) ==
   LET f == Top(t, g)
       mt == f.node.mt
       me == << g, t.k[g] + 1 >>
   IN
   CASE f.pc = "rlock" ->                                 \* m.mutex.RLock()
-         SetTop([t EXCEPT !.rc = @ + 1], g, [f EXCEPT !.pc = "lookup"])
+         SetTop([t EXCEPT !.rc = @ + 1], g, [f EXCEPT !.pc = "lookup", !.lk = TRUE])
     [] f.pc = "lookup" ->                                \* m.literal[...] then range m.pattern
          LET t1 == Acc(t, "literal", "r")
              t2 == IF mt \in Literal THEN t1 ELSE Acc(t1, "pattern", "r")
-             nx == IF f.node.e = "match" \/ ~Registered(mt) THEN "runlock" ELSE "enter"
+             nx == IF f.node.e = "match" THEN "munlock" ELSE IF ~Registered(mt) THEN "runlock" ELSE "enter"
          IN SetTop(t2, g, [f EXCEPT !.pc = nx, !.found = Registered(mt)])
+    [] f.pc = "munlock" ->                               \* Match returns: deferred RUnlock; the caller then invokes the function
+         SetTop([t EXCEPT !.rc = @ - 1], g, [f EXCEPT !.lk = FALSE, !.pc = IF f.found THEN "enter" ELSE "runlock"])
     [] f.pc = "enter" ->                                 \* the minifier starts: option struct / exec.Cmd
          IF mt \in {"css", "svg"} THEN
            LET t1 == Acc(t, "opt", "r")
                eff == t.opt[mt] \/ f.node.inl              \* if !o.Inline { o.Inline = params["inline"] == "1" }
-           IN IF CopyOpts THEN Continue(t1, g, [f EXCEPT !.inl = eff])
-              ELSE Continue([Wr(t1, "opt", g) EXCEPT !.opt[mt] = eff], g, [f EXCEPT !.inl = eff])
+           IN IF CopyOpts THEN AfterEnter(t1, g, [f EXCEPT !.inl = eff])
+              ELSE AfterEnter([Wr(t1, "opt", g) EXCEPT !.opt[mt] = eff], g, [f EXCEPT !.inl = eff])
          ELSE IF mt = "html" THEN
            LET t1 == Acc(t, "opt", "r")
            IN IF HtmlDep /\ ~t.opt["html"]                 \* o.KeepSpecialComments = true; o.KeepConditionalComments = false
-              THEN Continue([Wr(t1, "opt", g) EXCEPT !.opt["html"] = TRUE], g, f)
-              ELSE Continue(t1, g, f)
+              THEN AfterEnter([Wr(t1, "opt", g) EXCEPT !.opt["html"] = TRUE], g, f)
+              ELSE AfterEnter(t1, g, f)
          ELSE IF mt \in {"cmd", "cmdin"} THEN              \* *cmd = *c.cmd ; for i, arg := range cmd.Args
            LET t1 == Acc(t, "args", "r")
            IN IF mt = "cmdin" /\ ~CopyArgs
               THEN IF t.args = Tmpl                        \* cmd.Args[i] = ... writes the registered command's array
-                   THEN Continue([Wr(t1, "args", g) EXCEPT !.args = me], g, [f EXCEPT !.ar = me])
-                   ELSE Continue(t1, g, [f EXCEPT !.ar = t.args])     \* no $in left: runs on the other call's file
-              ELSE Continue(t1, g, [f EXCEPT !.ar = IF mt = "cmdin" THEN me ELSE Tmpl])
-         ELSE Continue(Acc(t, "opt", "r"), g, [f EXCEPT !.inl = f.node.inl])   \* js, json, xml, user functions: params are private
+                   THEN AfterEnter([Wr(t1, "args", g) EXCEPT !.args = me], g, [f EXCEPT !.ar = me])
+                   ELSE AfterEnter(t1, g, [f EXCEPT !.ar = t.args])     \* no $in left: runs on the other call's file
+              ELSE AfterEnter(t1, g, [f EXCEPT !.ar = IF mt = "cmdin" THEN me ELSE Tmpl])
+         ELSE AfterEnter(Acc(t, "opt", "r"), g, [f EXCEPT !.inl = f.node.inl])   \* js, json, xml, user functions: params are private
     [] f.pc = "body" ->                                  \* append(urlBytes, ...): reads the base, writes it iff cap > len
          LET t1 == Acc(t, "pkg", "r")
          IN IF TightCap THEN SetTop(t1, g, [f EXCEPT !.pc = "runlock"])
             ELSE SetTop([Wr(t1, "pkg", g) EXCEPT !.pkg = me], g, [f EXCEPT !.pc = "fin"])
     [] f.pc = "fin" ->                                   \* loose cap only: the bytes are read back from the shared array
          SetTop(Acc(t, "pkg", "r"), g, [f EXCEPT !.pc = "runlock", !.pk = IF t.pkg = me THEN "own" ELSE "foreign"])
-    [] f.pc = "park" ->                                  \* the gate opens
-         SetTop(t, g, [f EXCEPT !.pc = "runlock"])
+    [] f.pc = "park" ->                                  \* the gate opens / the user goes on with the stream
+         IF IsGate(mt) THEN SetTop(t, g, [f EXCEPT !.pc = "runlock"]) ELSE Continue(t, g, f)
     [] f.pc = "runlock" ->                               \* defer m.mutex.RUnlock(); return
          LET r == ResultOf(f)
-             t1 == [t EXCEPT !.rc = @ - 1, !.st[g] = SubSeq(@, 1, Len(@) - 1)]
+             t1 == [t EXCEPT !.rc = IF f.lk THEN @ - 1 ELSE @, !.st[g] = SubSeq(@, 1, Len(@) - 1)]
          IN IF Len(t.st[g]) > 1
             THEN LET p == Top(t1, g) IN Continue(t1, g, [p EXCEPT !.kres = Append(@, r)])
             ELSE [t1 EXCEPT !.k[g] = @ + 1, !.gate[g] = FALSE,
@@ -209,7 +245,7 @@ Do(t, g) ==
 Ev(e, g, k, sh) == [ev |-> e, g |-> g, k |-> k, sh |-> sh]
 Vis(t, g) ==
   LET f == Top(t, g) IN
-  IF f.pc = "enter" /\ IsGate(f.node.mt) THEN << Ev("parked", g, t.k[g] + 1, f.sh) >>
+  IF f.pc = "enter" /\ (IsGate(f.node.mt) \/ f.node.hold) THEN << Ev("parked", g, t.k[g] + 1, f.sh) >>
   ELSE IF (f.pc = "runlock" /\ Len(t.st[g]) = 1) \/ f.pc = "wunlock" THEN << Ev("done", g, t.k[g] + 1, f.sh) >>
   ELSE <<>>
 
@@ -277,7 +313,7 @@ CompletesAlone == \A g \in G : Active(s, g) =>
                     LET a == RunAlone(s, g) IN a.ok /\ ~Active(a.t, g)
 
 \* the lock counters mean what they say
-Holds(t, g) == Cardinality({i \in 1 .. Len(t.st[g]) : t.st[g][i].pc \in {"lookup", "enter", "inkid", "body", "park", "fin", "runlock"}})
+Holds(t, g) == Cardinality({i \in 1 .. Len(t.st[g]) : t.st[g][i].lk})
 SumHolds(t) == FoldLeft(LAMBDA a, g : a + Holds(t, g), 0, Iota(NG))
 LockSane == /\ s.rc = SumHolds(s)
             /\ (s.wh # 0 => s.rc = 0)
